@@ -11,9 +11,12 @@ where
     let Some(var_type) = lhs.mut_element_type() else {
         return false;
     };
+    let Some(assign_type) = lhs.mut_assign_type() else {
+        return false;
+    };
     let can_be_used = can_be_used(&var_type, &rhs);
     let return_type = return_type(&var_type, &rhs);
-    can_be_used && return_type.matches(&var_type)
+    can_be_used && return_type.matches(&assign_type)
 }
 
 pub fn exec<T: FnOnce(Variable, Variable) -> Variable>(
